@@ -985,6 +985,13 @@ func (s *PrintCtx) pcAppendQuotedStringValue(str string) {
 
 func (s *PrintCtx) appendQuotedString(str string) {
 	s.PreAlloc(len(str)*2 + 2)
+	if s.jsonMode {
+		// Go-syntax escapes (\a, \v, \x7f, \U0001f600) are not legal JSON.
+		s.pcAppendByte('"')
+		s.appendEscapedJSONString(str)
+		s.pcAppendByte('"')
+		return
+	}
 	s.buf = appendQuotedWith(s.buf, str, '"', false, false)
 }
 
